@@ -69,15 +69,28 @@ Ltac natb :=
          | H : (_ =? _) = false |- _ => apply Nat.eqb_neq in H
          | H : (_ <? _) = true |- _ => apply Nat.ltb_lt in H
          | H : (_ <? _) = false |- _ => apply Nat.ltb_ge in H
+         | H : (_ <=? _) = true |- _ => apply Nat.leb_le in H
+         | H : (_ <=? _) = false |- _ => apply Nat.leb_gt in H
+         end.
+
+Ltac rw_pcs :=
+  repeat match goal with
+         | E : a_pc ?s = _ |- context [a_pc ?s] => rewrite E
+         | E : s_pc ?s = _ |- context [s_pc ?s] => rewrite E
+         | E : r_pc ?s = _ |- context [r_pc ?s] => rewrite E
+         | E : w_pc ?s = _ |- context [w_pc ?s] => rewrite E
+         | E : c_pc ?s = _ |- context [c_pc ?s] => rewrite E
          end.
 
 Ltac fin :=
-  cbn; intros;
-  try assumption; try reflexivity; try lia; try congruence; try tauto;
+  cbn; rw_pcs; cbn; try assumption; try reflexivity; try lia; try congruence;
+  intros; try assumption; try lia; try congruence;
   try (intuition (try congruence; try lia; try discriminate)).
 
 (* after the step hypothesis has been inverted: simplify once, then one goal per clause *)
-Ltac clauses := cbn in *; natb; unfold cap in *; split; fin.
+Ltac clauses :=
+  cbn in *; natb; unfold cap in *; split; unfold cap;
+  try match goal with Ev : v_norlock _ = _ |- _ => unfold lk_a; rewrite ?Ev end; fin.
 
 Lemma step_inv c s t s' : Inv c s -> step c s t = Some s' -> Inv c s'.
 Proof.
@@ -148,28 +161,28 @@ Definition mR (c : lcfg) (s : st) : nat :=
 Definition mW (s : st) : nat := match w_pc s with WFin => 0 | p => 6 * w_b s + rankW p end.
 Definition measure (c : lcfg) (s : st) : nat := mA c s + mS c s + mR c s + mW s + rankC (c_pc s).
 
+Ltac msolve := cbn -[Nat.mul Nat.sub] in *; natb; try lia.
+
 Lemma step_measure c s t s' : Inv c s -> step c s t = Some s' -> measure c s' < measure c s.
 Proof.
-  intros [I1 I2 I3 I4 I5 I6 I7 I8 I9 I10 I11 I12 I13 I14 I15 I16 I17 I18 I19 I20 I21] H.
+  intros I H. pose proof (i_ai c s I) as I6. pose proof (i_wb c s I) as I15. clear I.
   unfold measure, mA, mS, mR, mW, rem_push.
   destruct t; cbn [step] in H.
-  - unfold step_app in H. destruct (a_pc s) eqn:Ea; unfold wlocked in *; break H; inv_some H;
-      cbn in *; rewrite ?Ea in *; cbn in *; try apply Nat.eqb_eq in E; try apply Nat.eqb_neq in E;
-      destruct (reconn s); try lia.
-  - unfold step_app_exit in H. destruct (a_pc s) eqn:Ea; break H; inv_some H;
-      cbn in *; rewrite ?Ea in *; cbn in *; destruct (reconn s); lia.
+  - unfold step_app in H. destruct (a_pc s) eqn:Ea; unfold wlocked in *; break H; natb; inv_some H;
+      cbn -[Nat.mul Nat.sub] in *; rewrite ?Ea in *; destruct (reconn s); msolve.
+  - unfold step_app_exit in H. destruct (a_pc s) eqn:Ea; break H; natb; inv_some H;
+      cbn -[Nat.mul Nat.sub] in *; rewrite ?Ea in *; destruct (reconn s); msolve.
   - unfold step_sender in H. destruct (reconn s) eqn:Er; [discriminate|].
-    destruct (s_pc s) eqn:Es; unfold wlocked, send_fails in *; break H; inv_some H;
-      cbn in *; rewrite ?Es, ?Er in *; cbn in *; try apply Nat.ltb_lt in E; try lia.
+    destruct (s_pc s) eqn:Es; unfold wlocked, send_fails in *; break H; natb; inv_some H;
+      cbn -[Nat.mul Nat.sub] in *; rewrite ?Es, ?Er in *; destruct (a_pc s); msolve.
   - unfold step_receiver in H. destruct (reconn s) eqn:Er; [discriminate|].
-    destruct (r_pc s) eqn:Erp; unfold wlocked, recv_fault in *; break H; inv_some H;
-      cbn in *; rewrite ?Erp, ?Er in *; cbn in *;
-      repeat match goal with X : (0 <? _) = true |- _ => apply Nat.ltb_lt in X end; try lia.
-  - unfold step_waiter in H. destruct (w_pc s) eqn:Ew; break H; inv_some H;
-      cbn in *; rewrite ?Ew in *; cbn in *; try lia.
-    all: assert (1 <= w_b s) by (apply I15; reflexivity); lia.
-  - unfold step_closer in H. destruct (c_pc s) eqn:Ec; break H; inv_some H; cbn in *; try lia.
-    all: destruct (reconn s); lia.
+    destruct (r_pc s) eqn:Erp; try match goal with k : rkind |- _ => destruct k end;
+      unfold wlocked, recv_fault in *; break H; natb; inv_some H;
+      cbn -[Nat.mul Nat.sub] in *; rewrite ?Erp, ?Er in *; destruct (a_pc s); msolve.
+  - unfold step_waiter in H. destruct (w_pc s) eqn:Ew; break H; natb; inv_some H;
+      cbn -[Nat.mul Nat.sub] in *; rewrite ?Ew in *; destruct (a_pc s), (reconn s); msolve.
+  - unfold step_closer in H. destruct (c_pc s) eqn:Ec; break H; natb; inv_some H;
+      cbn -[Nat.mul Nat.sub] in *; destruct (a_pc s), (reconn s), (w_pc s); msolve.
 Qed.
 
 (* every sequence of steps is bounded by the measure: all schedules terminate *)
@@ -212,23 +225,22 @@ Proof.
   - exists TWaiter. cbn. unfold step_waiter. rewrite Ew. eauto.
   - exists TWaiter. cbn. unfold step_waiter. rewrite Ew. eauto.
   - (* the waiter has returned: nobody holds or waits for the write lock *)
-    assert (WL : wlocked s = false) by (unfold wlocked; rewrite I2, I3, Ew; reflexivity).
+    assert (WL : wlocked s = false) by (unfold wlocked; rewrite I2, I3; reflexivity).
     assert (Hsender : s_pc s <> SFin -> (s_pc s = S1 -> 0 < cnt s \/ closed s = true) -> exists t s', step c s t = Some s').
     { intros Hn H1. exists TSender. cbn. unfold step_sender. rewrite Rc.
       destruct (s_pc s) eqn:Es; try rewrite WL; try (destruct (send_fails c s)); eauto; try congruence.
-      destruct (H1 eq_refl) as [X|X].
-      - apply Nat.ltb_lt in X. rewrite X. eauto.
-      - rewrite X. destruct (0 <? cnt s); eauto. }
+      all: destruct (H1 eq_refl) as [X|X];
+        [apply Nat.ltb_lt in X; rewrite X; eauto|rewrite X; destruct (0 <? cnt s); eauto]. }
     destruct (a_pc s) eqn:Ea.
     + exists TApp. cbn. unfold step_app. rewrite Ea. destruct (a_i s =? n_q c); eauto.
-    + exists TApp. cbn. unfold step_app. rewrite Ea, WL. eauto.
+    + exists TApp. cbn. unfold step_app. rewrite Ea, WL. destruct (v_norlock (l_var c)); eauto.
     + exists TApp. cbn. unfold step_app. rewrite Ea. eauto.
     + destruct (cnt s <? cap) eqn:Ec.
       * exists TApp. cbn. unfold step_app. rewrite Ea, Ec. eauto.
       * destruct (sendExit s) eqn:Ex.
         -- exists TAppExit. cbn. unfold step_app_exit. rewrite Ea, V, Ex. cbn. eauto.
         -- apply Hsender.
-           ++ intros X. rewrite I4, X in Ex. discriminate.
+           ++ intros X. rewrite X in I4. discriminate.
            ++ intros _. left. apply Nat.ltb_ge in Ec. unfold cap in Ec. lia.
     + exists TApp. cbn. unfold step_app. rewrite Ea. eauto.
     + (* application and waiter have returned: the closer runs *)
@@ -239,12 +251,12 @@ Proof.
               8: { exists TCloser. cbn. unfold step_closer. rewrite Ecp, Es, Erp. cbn. eauto. }
               all: exists TReceiver; cbn; unfold step_receiver; rewrite Rc, Erp; try rewrite WL; try (destruct k); eauto.
               (* R1: the sender has returned, so the stream is broken, half closed, or shut *)
-              destruct (I12 ltac:(rewrite Es; reflexivity) Rc) as [X|[X|X]].
+              destruct (I12 eq_refl Rc) as [X|[X|X]].
               - rewrite X. eauto.
               - destruct (broken s); eauto. destruct (recv_fault c s); eauto. destruct (0 <? inflight s); eauto. rewrite X. eauto.
-              - apply I13 in X. rewrite Erp in X. discriminate. }
-        all: apply Hsender; try (rewrite Es; discriminate); rewrite Es; intros X; try discriminate X.
-        destruct (I9 eq_refl) as [Y|Y]; [right; exact Y|]. rewrite I4, Es in Y. discriminate.
+              - apply I13 in X. discriminate. }
+        all: apply Hsender; try discriminate; intros X; try discriminate X.
+        destruct (I9 eq_refl) as [Y|Y]; [right; exact Y|]. rewrite I4 in Y. discriminate.
       * exists TCloser. cbn. unfold step_closer. rewrite Ecp. eauto.
       * exists TCloser. cbn. unfold step_closer. rewrite Ecp. eauto.
       * discriminate.
@@ -339,11 +351,11 @@ Proof.
   intros H N3 NF I E. destruct t; cbn [step] in H.
   - unfold step_app in H. unfold wlocked in *. break H; inv_some H; cbn; auto.
   - unfold step_app_exit in H. break H; inv_some H; cbn; auto.
-  - unfold step_sender in H. unfold wlocked in *. break H; inv_some H; cbn; auto. apply orb_true_iff. auto.
-  - unfold step_receiver in H. unfold wlocked in *. break H; inv_some H; cbn; auto. apply orb_true_iff. auto.
-  - unfold step_waiter in H. break H; inv_some H; cbn; auto.
-  - unfold step_closer in H. break H; inv_some H; cbn in *; auto; try congruence.
-    destruct NF as [X|X]; [congruence|]. destruct (i_modeclose c s I X). congruence.
+  - unfold step_sender in H. unfold wlocked in *. break H; inv_some H; cbn; auto; try (apply orb_true_iff; auto).
+  - unfold step_receiver in H. unfold wlocked in *. break H; inv_some H; cbn; auto; try (apply orb_true_iff; auto).
+  - unfold step_waiter in H. break H; inv_some H; cbn; auto; try discriminate.
+  - unfold step_closer in H. break H; inv_some H; cbn; auto; cbn in *; try congruence.
+    all: destruct NF as [X|X]; [congruence|]; destruct (i_modeclose c s I X); congruence.
 Qed.
 
 (* ------------------------------------------------------------------ the schedulers stay inside reach *)
